@@ -1311,7 +1311,11 @@ func c14Current(c *fw.Ctx, r *rng.R) {
 			calls++
 			if calls == 1 {
 				for j := i + 1; j < n; j++ {
-					l.Replace(j, fmt.Sprintf("new%d", j))
+					if (j+prelude)%2 == 0 {
+						l.Replace(j, fmt.Sprintf("new%d", j))
+					} else {
+						l.SetTF(fmt.Sprintf("#%d", j), fmt.Sprintf("new%d", j)) // the same write spelled as a path (the last index among them)
+					}
 				}
 			}
 			if i >= 0 && bad == "" {
